@@ -7,7 +7,9 @@ the lookup model (lean/MakoModel/Lookup/Model.lean) is parameterised by.
 * TemplateLookup.__init__'s defaults `filesystem_checks`, `collection_size`, the sentinel compared with
   `collection_size` that selects the plain dict, and that `util.LRUCache(collection_size)` is called with the
   capacity only (so the default threshold is the one in force),
-* the comparison operator of `_check` (`module._modified_time >= mtime`), as an enum.
+* the comparison operator of `_check` (`module._modified_time >= mtime`), as an enum,
+* whether `_load` hands a second-chance hit to `_check`, whether `_compile_from_file` compares the module's
+  `_template_filename` with the source file name (and that its staleness test is still exists/mtime).
 """
 from __future__ import annotations
 
@@ -113,7 +115,29 @@ def gen(repo) -> str:
             cmpop = type(n.ops[0]).__name__
     if cmpop is None:
         raise RegenError("%s: _check has no `module._modified_time <op> stat[ST_MTIME]` comparison" % rel_l)
-    lines = [HEADER % "mako/util.py (LRUCache), mako/lookup.py (TemplateLookup)",
+    # _load: is the second-chance hit returned through self._check(uri, template)?
+    ld = find_func(tlk.body, "_load", rel_l)
+    second_chance_checked = any(
+        isinstance(n, ast.Call) and isinstance(n.func, ast.Attribute) and n.func.attr == "_check"
+        and isinstance(n.func.value, ast.Name) and n.func.value.id == "self" for n in ast.walk(ld))
+    if not any(isinstance(n, ast.Subscript) and _is_self_attr(n.value, "_collection") and isinstance(n.ctx, ast.Load)
+               for n in ast.walk(ld)):
+        raise RegenError("%s: _load has no second-chance read of self._collection[uri]" % rel_l)
+    if not any(isinstance(n, ast.Call) and isinstance(n.func, ast.Attribute) and n.func.attr == "pop"
+               and _is_self_attr(n.func.value, "_collection") for n in ast.walk(ld)):
+        raise RegenError("%s: _load does not pop the uri on failure" % rel_l)
+    # Template._compile_from_file: is a module generated from another file name regenerated?
+    rel_t = "mako/template.py"
+    tt = parse(repo, rel_t)
+    cff = find_func(find_class(tt, "Template", rel_t).body, "_compile_from_file", rel_t)
+    src_cff = ast.unparse(cff)
+    if "ST_MTIME] < filemtime" not in src_cff or "os.path.exists(path)" not in src_cff:
+        raise RegenError("%s: _compile_from_file no longer decides by `not exists(path) or mtime(path) < filemtime`" % rel_t)
+    checks_source_name = any(
+        isinstance(n, ast.Compare) and len(n.ops) == 1 and isinstance(n.ops[0], ast.NotEq)
+        and "_template_filename" in ast.unparse(n.left) and ast.unparse(n.comparators[0]) == "filename"
+        for n in ast.walk(cff))
+    lines = [HEADER % "mako/util.py (LRUCache), mako/lookup.py (TemplateLookup), mako/template.py (_compile_from_file)",
              "namespace MakoModel.Generated.Lookup",
              "",
              "/-- `LRUCache.__init__(capacity, threshold=%r)`: the default threshold as the exact fraction -/" % thr,
@@ -130,6 +154,10 @@ def gen(repo) -> str:
              "def unboundedSentinel : Int := %d" % sentinel,
              "/-- comparison of `_check`: `module._modified_time <op> mtime` keeps the cached template -/",
              "def checkCompare : String := \"%s\"" % cmpop,
+             "/-- `_load` returns a second-chance hit through `self._check(uri, template)` -/",
+             "def secondChanceChecked : Bool := %s" % ("true" if second_chance_checked else "false"),
+             "/-- `_compile_from_file` regenerates a module file whose `_template_filename` differs from the source -/",
+             "def moduleChecksSourceName : Bool := %s" % ("true" if checks_source_name else "false"),
              "",
              "end MakoModel.Generated.Lookup",
              ""]
